@@ -30,6 +30,23 @@
 (*  - "establishes" = the objects handed to Establisher.Establish; a       *)
 (*    reconcile that does not reach Establish establishes nothing.         *)
 (*  - a cache entry is complete if it holds every document of the stream.  *)
+(*  - C15 is read as a safety property: whenever a reconcile establishes,  *)
+(*    it establishes exactly the declared objects.  That a revision whose  *)
+(*    cache entry is corrupt (process died while writing it; Remove failed)*)
+(*    never installs at all - nothing removes an entry whose gzip header   *)
+(*    is intact - is recorded by the check as an observation, not as a     *)
+(*    violation.                                                           *)
+(*  - "after a failed cache write": the monitor additionally requires the  *)
+(*    code's own delete-on-failure (CacheSound.FailedStoreCleanup): a      *)
+(*    Store that returned an error leaves no entry, unless the environment *)
+(*    made the Remove fail or killed the process.                          *)
+(*                                                                         *)
+(* Known finding D4 (DESIGN section 4): with FixTee = FALSE (the code as   *)
+(* written) Exact, CacheSound, Gate and NoWellFormedPrefix are violated:   *)
+(* an image stream that fails mid-way makes the parser close the tee, the  *)
+(* cache writer sees a normal EOF and stores a well-formed prefix under    *)
+(* the revision's name.  FixTee = TRUE is the repaired semantics of        *)
+(* DESIGN Appendix B (internal/xpkg/reader.go).                            *)
 (***************************************************************************)
 EXTENDS Integers, Sequences, FiniteSets, TLC
 
